@@ -103,6 +103,10 @@ def run(ctx: core.Ctx):
             counts.sort()
         ehi = [rng.choice(vals) for _ in range(n)]
         elo = [rng.choice(vals) for _ in range(n)]
+        if rng.random() < 0.15:
+            # a plateau: every feasible candidate has exactly the same excess (the lower limit binds at the undisturbed ground temperature)
+            th = rng.randint(0, n)
+            ehi = [rng.choice([0.5, 1.0, 2.0]) if j < th else -0.3 for j in range(n)]
         if rng.random() < 0.2:
             # excess values a rounding error away from the limit (|excess| << sizing tolerance): the sign decides, not the size
             sc = rng.choice([1e-7, 5e-7, 1e-9, 1e-12])
@@ -171,8 +175,8 @@ def check_b1d_predicate(ctx, exhaustive_family, counts, elo, ehi, cap, cont, mi,
     feasible_eval = [i for i in evaluated_hi if ehi[i] < 0]
     xr = n - 1 if cap is None else max((i for i in range(n) if counts[i] < cap), default=None)
     went_bisect = len(tr) > 3 or (hl == "H" and not ((elo[0] < 0 < ehi[0]) or (ehi[0] < 0 < elo[0])) and not cont)
-    if hl == "H" and ehi[k] < 0 and k in evaluated_hi and len(set(ehi[i] for i in evaluated_hi)) == len(set(evaluated_hi)):
-        # drilling bound: no evaluated feasible candidate with fewer boreholes
+    if hl == "H" and ehi[k] < 0 and k in evaluated_hi:
+        # drilling bound: no evaluated feasible candidate with fewer boreholes (ties in the excess included: F32)
         better = [j for j in feasible_eval if counts[j] < counts[k]]
         if better and not ((elo[0] < 0 < ehi[0]) or (ehi[0] < 0 < elo[0])):
             ctx.finding("b1d-drilling-bound", f"returned field {k} ({counts[k]} boreholes) although evaluated field {better[0]} ({counts[better[0]]}) meets the limits",
@@ -180,7 +184,7 @@ def check_b1d_predicate(ctx, exhaustive_family, counts, elo, ehi, cap, cont, mi,
     # monotone family: first feasible + predecessor evaluated and failing
     signs = [v < 0 for v in ehi[: (xr + 1 if xr is not None else n)]]
     if xr is not None and mi >= 7 and all(v != 0 for v in ehi) and elo[0] > 0 and any(signs) and not signs[0] and signs == sorted(signs) \
-            and len(set(ehi)) == n and all(a < b for a, b in zip(counts, counts[1:])):
+            and all(a < b for a, b in zip(counts, counts[1:])):
         kth = signs.index(True)
         if not (k == kth and hl == "H" and (kth - 1) in evaluated_hi):
             ctx.finding("b1d-first-feasible", f"monotone excess with threshold {kth}: returned {out_r}, trace {tr_r}",
